@@ -17,7 +17,7 @@ EXPLANATION = (
     "fields read, the order of the builder chain (stable premises, premises of the direction, lemma consequences, conclusions), direction gates, "
     "mirror symmetry. FLOW-SAN: all four formula sources pass replace_placeholders with the map built from user_guide.placeholders(). "
     "FLOW-PIPE: only the program side is renamed, with the intersection of both private sets, before taken_predicates is computed. FRESH-LIT: the "
-    "`{symbol}_p` rename is not checked for freshness (known finding). TAB-DEFAULT: what an omitted annotation means is decided on the parser (a placeholder without a sort is general, a formula without a direction universal).")
+    "`{symbol}_p` rename is not checked for freshness (known finding). TAB-DEFAULT: what an omitted annotation means is decided on the parser (a placeholder without a sort is general, a formula without a direction universal). SHARED: the integer relation table (C06) and the symbol order chain (C12) run here too.")
 UNDECIDED = ["that COMP[tau*P] with open inputs captures external behaviour (Fandinno et al. 2023) — literature, with C01/C04",
              "truth of the assembled problems in models"]
 ASSUMPTIONS = ["C01 (tau*), C04 (completion), C07 (simplifiers) for the meaning of the formulas that are routed"]
